@@ -215,3 +215,31 @@ func And(a, b bool) bool     { return a && b }
 func Or(a, b bool) bool      { return a || b }
 func Not(a bool) bool        { return !a }
 func Implies(a, b bool) bool { return !a || b }
+
+func LocksHeld() int { return 0 }
+
+// RWMutex is a sync.RWMutex that yields the processor around every lock
+// operation.  It is used only by native replays of schedule-dependent
+// findings (the env source is overlaid so that its mutex has this type);
+// the engine always analyses the unmodified source.
+type RWMutex struct {
+	mu sync.RWMutex
+}
+
+var yieldCounter uint32
+
+func maybeYield() {
+	n := atomicAdd(&yieldCounter)
+	if n%3 != 0 {
+		gosched()
+	}
+	if n%7 == 0 {
+		gosched()
+		gosched()
+	}
+}
+
+func (m *RWMutex) Lock()    { maybeYield(); m.mu.Lock(); maybeYield() }
+func (m *RWMutex) Unlock()  { m.mu.Unlock(); maybeYield() }
+func (m *RWMutex) RLock()   { maybeYield(); m.mu.RLock(); maybeYield() }
+func (m *RWMutex) RUnlock() { m.mu.RUnlock(); maybeYield() }
